@@ -1,6 +1,11 @@
 import M3d.Lemmas.Surface
 import M3d.Lemmas.MeshOps
 import M3d.Lemmas.MeshOpsAlg
+import M3d.Lemmas.ElimColinear
+import M3d.Lemmas.FlipLoop
+import M3d.Lemmas.FlipSurgery
+import M3d.Lemmas.FillLoop
+import M3d.Lemmas.SubdivVolume
 /-!
 # C10 — mesh processing keeps closed oriented manifolds closed, oriented, manifold
 
@@ -85,18 +90,27 @@ theorem chaikin_masks {K : Type} [Field K] [CharZero K] (p q : V2 K) :
 theorem subdivide_edge_points_shared {K : Type} [Field K] (c1 c2 : V3 K) (t : K) :
     lerp3 c1 c2 t = lerp3 c2 c1 (1 - t) := lerp3_symm c1 c2 t
 
-/-- **`subdivide_keeps_volume`** (algebraic core, every `n ≠ 0`): the nested interpolation of
-`SubdivideEdges` lands on the barycentric lattice, and every one of the `n²` sub-triangles of a
-face — upward `(P(i,j),P(i+1,j),P(i+1,j+1))` and downward `(P(i,j),P(i,j-1),P(i+1,j))`, in the
-vertex order the Go code emits — spans exactly `1/n²` of the signed volume of the face: same
-orientation, and the `n²` of them add up to the original signed volume.
-(The summation over the `n²` faces is executed, not proved: the driver checks
-`volume6 out = volume6 in` in exact arithmetic on every exact case.) -/
-theorem subdivide_keeps_volume_partial {K : Type} [Field K] (n i j : K) (hn : n ≠ 0) (a b c : V3 K) :
+/-- **`subdivide_lattice_points`** (algebraic core of `subdivide_keeps_volume`, every `n ≠ 0`):
+the nested interpolation of `SubdivideEdges` lands on the barycentric lattice, and every one of
+the `n²` sub-triangles of a face — upward `(P(i,j),P(i+1,j),P(i+1,j+1))` and downward
+`(P(i,j),P(i,j-1),P(i+1,j))`, in the vertex order the Go code emits — spans exactly `1/n²` of the
+signed volume of the face: same orientation. -/
+theorem subdivide_lattice_points {K : Type} [Field K] (n i j : K) (hn : n ≠ 0) (a b c : V3 K) :
     (i ≠ 0 → lerp3 (lerp3 a b (i / n)) (lerp3 a c (i / n)) (j / i) = bary n a b c i j) ∧
       V3.det (bary n a b c i j) (bary n a b c (i + 1) j) (bary n a b c (i + 1) (j + 1)) = V3.det a b c / (n * n) ∧
       V3.det (bary n a b c i j) (bary n a b c i (j - 1)) (bary n a b c (i + 1) j) = V3.det a b c / (n * n) :=
   ⟨fun hi => row_point_eq_bary n i j hn hi a b c, det_up n i j hn a b c, det_down n i j hn a b c⟩
+
+/-- **`subdivide_keeps_volume`** (full, no longer partial): for every `n ≥ 1`, over every field
+of characteristic 0 (ℚ — what the driver executes on dyadic coordinates — and ℝ), and every
+triangle soup, the model of `SubdivideEdges(n)` — the Go loops over `divideSegment` rows, with
+the end-point special cases and the `len = 1` case — encloses exactly the same signed volume:
+the `n²` sub-triangles of each face sum to the face (`Σᵢ (2i+1)/n² = 1`).  The driver compares
+the REAL output with `subdivideEdges` triangle by triangle in exact mode (`placement`). -/
+theorem subdivide_keeps_volume {K : Type} [Field K] [CharZero K] (n : Nat) (hn : n ≠ 0) (d : V3 K)
+    (ts : List (V3 K × V3 K × V3 K)) : volume6 (subdivideEdges n d ts) = volume6 ts := by
+  obtain ⟨m, rfl⟩ := Nat.exists_eq_succ_of_ne_zero hn
+  exact subdivideEdges_volume m d ts
 
 /-- **`colinear_removal_keeps_area`** (shoelace identity): replacing `p→v→n` by `p→n` changes
 twice the enclosed signed area by the doubled area of the triangle `p v n` — zero when `v` is
@@ -157,6 +171,179 @@ example :
     elimColinear col3 List.head? m = some [(0,3),(3,4),(4,5),(5,0)] ∧
       elimColinearBuggy (colAt col3) (fun l => l.headD 0) m 200 [1, 2] m = none := by decide
 
+/-- **`eliminate_colinear_bridges_meet_criterion`** (shape preservation of the loop as it is:
+the criterion `vertexNormalDifference(res, c) < epsilon` is evaluated on the mesh `res` BEING
+EDITED).  For every criterion `col3 p v n` on three points, every map order and every closed
+oriented input: each segment `a → b` of the result is a segment of the input, or there is a
+removed input vertex `v` with `col3 a v b` — the last vertex removed between `a` and `b` was
+removed when its two neighbours were exactly `a` and `b`.  So no bridge spans an accumulated turn
+larger than what the documented per-vertex criterion allows for ONE vertex (an arc collapsed to
+its chord has no such `v`: every removed vertex sees the chord under half the arc's angle).
+The driver evaluates this on every real output with `col3` = the Go float expression
+`1 - min(1, n1·n2) < epsilon` (bit-for-bit: only `+ * / sqrt`). -/
+theorem eliminate_colinear_bridges_meet_criterion (col3 : Nat → Nat → Nat → Bool)
+    (order : List Nat → Option Nat) (horder : ∀ l x, order l = some x → x ∈ l)
+    (hsafe : Safe (fun cands _ => order cands) (fun _ _ _ _ => false))
+    (m : List Seg) (hm : ClosedCurves m) (out : List Seg) (h : elimColinear col3 order m = some out) :
+    ∀ s ∈ out, s ∈ m ∨ ∃ v, v ∈ segVertsAll m ∧ v ∉ segVertsAll out ∧ col3 s.1 v s.2 = true := by
+  unfold elimColinear at h
+  have h0 : ElimInv col3 m ((segVerts m).filter (colAt col3 m)) m :=
+    ⟨hm, fun c hc => (List.mem_filter.1 hc).2, fun s hs => Or.inl hs, fun _ hw => hw⟩
+  obtain ⟨_, hinv⟩ := elimLoop_inv col3 order horder hsafe m _ _ _ _ h0 h
+  exact hinv.expl
+
+/-- A hexagon whose vertices 1, 2, 3 each turn gently (`col3` holds for `0 1 2`, `1 2 3`,
+`2 3 4` only).  The loop as it is keeps vertex 2 once 1 is gone (`0 2 3` does not meet the
+criterion) and returns `0→2→4→5`; re-checking against the ORIGINAL mesh (seeded change C10-3)
+removes 1, 2 and 3 and returns the bridge `0→4` that no removed vertex justifies. -/
+example :
+    let m : List Seg := [(0,1),(1,2),(2,3),(3,4),(4,5),(5,0)]
+    let col3 : Nat → Nat → Nat → Bool := fun p v n => p + 1 == v && v + 1 == n && 1 ≤ v && v ≤ 3
+    elimColinear col3 List.head? m = some [(2,4),(0,2),(4,5),(5,0)] ∧
+      elimColinearStale col3 List.head? m = some [(0,4),(4,5),(5,0)] ∧
+      ([1,2,3].all fun v => !col3 0 v 4) = true := by decide
+
+/-- **`nearly_colinear_removal_area_bound`**: a removal allowed by the criterion
+`1 - cos(turn) ≤ ε` (`cos = d1·d2 / L`, `L = |d1||d2|`) changes twice the enclosed area —
+which is `cross d1 d2` by `colinear_removal_keeps_area`'s identity — by at most `√(2ε)·|d1||d2|`
+(squared form; `ε = 0` gives the exact statement). -/
+theorem nearly_colinear_removal_area_bound {K : Type} [Field K] [LinearOrder K] [IsStrictOrderedRing K]
+    (p v n : V2 K) (L eps : K) (hL : 0 ≤ L)
+    (hL2 : L * L = ((v.x - p.x) * (v.x - p.x) + (v.y - p.y) * (v.y - p.y)) *
+      ((n.x - v.x) * (n.x - v.x) + (n.y - v.y) * (n.y - v.y)))
+    (h0 : 0 ≤ eps) (h1 : eps ≤ 1)
+    (hcrit : (1 - eps) * L ≤ (v.x - p.x) * (n.x - v.x) + (v.y - p.y) * (n.y - v.y)) :
+    let d := V2.cross p v + V2.cross v n - V2.cross p n
+    d * d ≤ 2 * eps * (L * L) := by
+  have hb := cross_bridge p v n
+  have := nearly_colinear_cross_bound (⟨v.x - p.x, v.y - p.y⟩ : V2 K) ⟨n.x - v.x, n.y - v.y⟩ L eps hL hL2 h0 h1 hcrit
+  simp only [hb]
+  exact this
+
+example : ∃ (p v n : V2 Rat) (L eps : Rat), 0 ≤ L ∧
+    L * L = ((v.x - p.x) * (v.x - p.x) + (v.y - p.y) * (v.y - p.y)) *
+      ((n.x - v.x) * (n.x - v.x) + (n.y - v.y) * (n.y - v.y)) ∧ 0 ≤ eps ∧ eps ≤ 1 ∧ 0 < eps ∧
+    (1 - eps) * L ≤ (v.x - p.x) * (n.x - v.x) + (v.y - p.y) * (n.y - v.y) ∧
+    V2.cross p v + V2.cross v n - V2.cross p n ≠ 0 :=
+  -- d1 = (4,3), d2 = (3,4): |d1||d2| = 25, dot = 24, cos = 24/25, cross = 7
+  ⟨⟨0, 0⟩, ⟨4, 3⟩, ⟨7, 7⟩, 25, 1/25, by norm_num, by norm_num, by norm_num, by norm_num, by norm_num, by norm_num,
+    by norm_num [V2.cross]⟩
+
+/-! ## `FlipDelaunay`: the tolerance and termination -/
+
+section Flip
+open M3d.FlipLoop
+
+/-- **`flip_no_pingpong`** — why `sum < math.Pi+1e-8` and not `sum <= math.Pi`.  Let `S0`, `S1`
+be the true opposite-angle sums for the two diagonals of a pair of triangles (`S0 + S1 ≤ 2π`:
+they are the four angles of a — possibly skew — quadrilateral) and `c0`, `c1` the sums the code
+computes, each within `δ` of the truth.  If the float error `δ` is below the tolerance, the
+flip loop on this pair stops after at most one flip, whichever diagonal it starts from: a pair
+that has just been flipped (`c ≥ π + tol`) is never flipped back (`c' ≤ π - tol + 2δ < π + tol`). -/
+theorem flip_no_pingpong {K : Type} [Field K] [LinearOrder K] [IsStrictOrderedRing K]
+    (pi tol δ S0 S1 c0 c1 : K) (hS : S0 + S1 ≤ 2 * pi)
+    (h0 : S0 - δ ≤ c0 ∧ c0 ≤ S0 + δ) (h1 : S1 - δ ≤ c1 ∧ c1 ≤ S1 + δ) (hδ : δ < tol)
+    (d : Bool) (fuel : Nat) : ∃ r, quadLoop (wantsFlip pi tol) c0 c1 (fuel + 2) d = some r :=
+  quadLoop_tol pi tol δ S0 S1 c0 c1 hS h0 h1 hδ d fuel
+
+/-- **`flip_pingpong_without_tolerance`**: with the textbook test `sum <= pi`, a pair of
+triangles whose two computed sums both exceed `pi` — an exactly co-circular flat quadrilateral
+(`S0 = S1 = π`) with both sums rounded up — is flipped back and forth forever: for EVERY fuel the
+loop has not returned.  (Seeded change C10-2; found by the harness as `flip3 … O timeout`.) -/
+theorem flip_pingpong_without_tolerance {K : Type} [LinearOrder K] (pi c0 c1 : K)
+    (h0 : pi < c0) (h1 : pi < c1) (fuel : Nat) (d : Bool) :
+    quadLoop (wantsFlipNoTol pi) c0 c1 fuel d = none := quadLoop_noTol pi c0 c1 h0 h1 fuel d
+
+/-- The same computed sums (`π + 4·10⁻¹⁶` for both diagonals of a co-circular quadrilateral,
+`π` replaced by a rational): the loop with the tolerance `10⁻⁸` returns without a flip, the loop
+without tolerance is still running after 1000 iterations. -/
+example :
+    let pi : Rat := 355 / 113
+    let c : Rat := pi + 4 / 10 ^ 16
+    quadLoop (wantsFlip pi (1 / 10 ^ 8)) c c 2 false = some false ∧
+      quadLoop (wantsFlipNoTol pi) c c 1000 false = none ∧
+      (pi - 4 / 10 ^ 16 ≤ c ∧ c ≤ pi + 4 / 10 ^ 16) := by
+  refine ⟨by decide +kernel, quadLoop_noTol _ _ _ (by decide +kernel) (by decide +kernel) _ _, by decide +kernel⟩
+
+/-- **`flip_loop_terminates_of_measure`** (the scheme): for every decision `dec` and every
+iteration order, if some natural-valued measure of the mesh strictly decreases at every flip the
+loop performs, `FlipDelaunay` returns after at most `μ(input)` flips with a mesh on which no
+edge is flipped any more. -/
+theorem flip_loop_terminates_of_measure (dec : List Tri → Nat → Nat → Bool) (order : List Tri → List Edge)
+    (μ : List Tri → Nat) (h : ∀ ts ts', flipStep dec order ts = some ts' → μ ts' < μ ts) (ts : List Tri) :
+    ∃ out, flipLoop dec order (μ ts + 1) ts = some out ∧ flipStep dec order out = none :=
+  iterLoop_terminates (flipStep dec order) μ h (μ ts + 1) ts (Nat.lt_succ_self _)
+
+/-- **`flat_flip_measure`** — the measure for flat faces.  (1) Replacing `(o1,p1,p2), (o2,p2,p1)`
+by `(o1,o2,p2), (p1,o2,o1)` (the triangles the Go code adds) keeps the area and lowers the lifted
+measure `Σ orient(t)·(|a|²+|b|²+|c|²)` by exactly the in-circle determinant; (2) that determinant
+is `-|u1||u2||w1||w2|·sin(α+β)` for the two angles `α`, `β` opposite the edge, so
+`α + β > π` (what the code tests, `0 < α, β < π`) is `inCircle > 0` and an exactly co-circular
+quadrilateral has `inCircle = 0` for both diagonals.  Over every commutative ring. -/
+theorem flat_flip_measure {R : Type} [CommRing R] (o1 p1 p2 o2 : Pt R) :
+    orient o1 p1 p2 + orient o2 p2 p1 = orient o1 o2 p2 + orient p1 o2 o1 ∧
+      triMeasure (o1, p1, p2) + triMeasure (o2, p2, p1)
+        - (triMeasure (o1, o2, p2) + triMeasure (p1, o2, o1)) = inCircle o1 p1 p2 o2 ∧
+      sinSumScaled p1 p2 o1 o2 = - inCircle o1 p1 p2 o2 :=
+  ⟨flip_area_identity o1 p1 p2 o2, measure_flip_identity o1 p1 p2 o2, sinSumScaled_eq p1 p2 o1 o2⟩
+
+/-- **`flat_flip_terminates`**: inside a flat patch with integer (after scaling: dyadic)
+coordinates, any flip rule that only flips strictly non-Delaunay edges (`inCircle > 0` — what
+the tolerance guarantees when the float error is below it) allows no infinite sequence of
+flips, in whatever order the edges are visited, and performs at most `measure(start)` flips. -/
+theorem flat_flip_terminates (wants : Pt Int → Pt Int → Pt Int → Pt Int → Bool)
+    (hw : ∀ p1 p2 o1 o2, wants p1 p2 o1 o2 = true → 0 < inCircle o1 p1 p2 o2) :
+    WellFounded (fun s' s => AllCcw s ∧ FlatFlip wants s s') ∧
+      ∀ (f : Nat → List (CTri Int)), AllCcw (f 0) → ∀ n, (∀ k < n, FlatFlip wants (f k) (f (k + 1))) →
+        measure (f n) + n ≤ measure (f 0) :=
+  ⟨flatFlip_wf wants hw, fun f h0 n h => (flatFlip_chain_bound wants hw f h0 n h).2⟩
+
+/-- The trapezoid `A=(84,13) B=(68,51) C=(0,85) D=(-40,75)` on the circle of radius 85 (seeded
+change C10-2's input): `inCircle = 0` for both diagonals, so a rule that also flips when
+`inCircle = 0` (what `sum <= pi` does once both sums are rounded up) has the 2-cycle
+`{CAB, DAC} → {BDA, CDB} → {CAB, DAC}`; a rule with `inCircle > 0` flips neither. -/
+example :
+    let A : Pt Int := (84, 13); let B : Pt Int := (68, 51); let C : Pt Int := (0, 85); let D : Pt Int := (-40, 75)
+    let w : Pt Int → Pt Int → Pt Int → Pt Int → Bool := fun p1 p2 o1 o2 => decide (0 ≤ inCircle o1 p1 p2 o2)
+    inCircle B C A D = 0 ∧ inCircle C D B A = 0 ∧
+      FlatFlip w [(C, A, B), (D, A, C)] [(B, D, A), (C, D, B)] ∧
+      FlatFlip w [(B, D, A), (C, D, B)] [(C, A, B), (D, A, C)] := by
+  refine ⟨by decide, by decide, ?_, ?_⟩
+  · exact FlatFlip.mk (68, 51) (0, 85) (84, 13) (-40, 75) ((0, 85), (84, 13), (68, 51))
+      ((-40, 75), (84, 13), (0, 85)) [] _ (List.Perm.refl _) (Or.inr (Or.inl rfl)) (Or.inl rfl)
+      (by decide) (by decide) (by decide)
+  · exact FlatFlip.mk (0, 85) (-40, 75) (68, 51) (84, 13) ((0, 85), (-40, 75), (68, 51))
+      ((68, 51), (-40, 75), (84, 13)) [] _ (List.Perm.swap _ _ _) (Or.inl rfl) (Or.inr (Or.inl rfl))
+      (by decide) (by decide) (by decide)
+
+/-- **`flip_preserves`, edge part** (`_partial`: the statement wanted is `ClosedManifold ts →
+ClosedManifold ts'`; that the four changed vertex fans stay single cycles is not proved and is
+decided per real output).  The surgery `Remove(t0); Remove(t1); Add{o1,o2,p2}; Add{p1,o2,o1}`
+guarded by "`o1 o2` is not yet an edge" (the guard added by repair `6d8398d`) keeps the soup
+edge-balanced — closed, consistently oriented, every edge on exactly two faces —, creates no
+degenerate face and keeps the number of faces, whenever the two opposite corners differ (no two
+faces on the same three vertices: `noDupFace`, checked on every input). -/
+theorem flip_preserves_partial {ts ts' : List Tri} {p1 p2 : Nat} (hb : EdgeBalanced ts) (hd : NoDegenerate ts)
+    (h : flipEdge ts p1 p2 = some ts')
+    (hdup : ∀ t0 o1 t1 o2, findOpp ts p1 p2 = some (t0, o1) → findOpp ts p2 p1 = some (t1, o2) → o1 ≠ o2) :
+    EdgeBalanced ts' ∧ NoDegenerate ts' ∧ ts'.length = ts.length := flipEdge_balanced hb hd h hdup
+
+/-- The bipyramid over the triangle `0 1 2` with apexes `3` and `4`: the edge `0 1` has the
+opposite corners `3`, `4` and `3 4` is not an edge, so it is flipped and the result is a closed
+manifold with the same number of faces; it can be flipped back; on a tetrahedron the opposite
+corners of every edge are already joined and the surgery is refused. -/
+example :
+    let bip : List Tri := [(0,1,3),(1,2,3),(2,0,3),(1,0,4),(2,1,4),(0,2,4)]
+    -- edge 0-1: opposite corners 3 and 4, edge 3-4 absent: flipped
+    (flipEdge bip 0 1).map closedManifold = some true ∧
+      (flipEdge bip 0 1).map List.length = some 6 ∧
+      -- in the result the edge 3-4 exists; flipping 3-4 back wants the edge 0-1, absent again
+      ((flipEdge bip 0 1).bind fun ts => flipEdge ts 3 4).map closedManifold = some true ∧
+      -- tetrahedron: the opposite corners of any edge are already joined: refused
+      flipEdge [(0,1,2),(0,2,3),(0,3,1),(1,3,2)] 0 1 = none := by decide
+
+end Flip
+
 /-! ## 3-D decimation: filling the hole left by a removed vertex -/
 
 /-- **`fill_loop_boundary`** (faces and vertices; for every chord oracle — i.e. whatever the
@@ -193,9 +380,25 @@ theorem fill_loop_boundary_base (a b c : Nat) (chord : List Nat → Option (Nat 
     List.zip_cons_cons, List.cons_append, List.nil_append, List.zip_nil_right, List.map_cons, List.map_nil, swap]
   exact List.reverse_perm [(b, a), (c, b), (a, c)]
 
+/-- **`fill_loop_boundary`** (assembled: the induction over the index arithmetic of
+`newSubloop`).  For every chord oracle — whatever the aspect-ratio search of `createSubloops`
+picks —, every recursion depth and every loop: when `fillLoop` succeeds, the directed edges of
+the returned triangles are exactly the edges of the loop REVERSED, once each, plus internal
+chord edges `I` each occurring as often as its reverse.  Hence gluing the filling into the hole
+whose rim is the loop cancels every edge: the re-triangulated mesh is edge-balanced again
+(closed, consistently oriented, two faces per edge) provided no chord duplicates an existing
+edge — which is what the duplicate-edge rollback of `attemptRemoveVertex` tests. -/
+theorem fill_loop_boundary (chord : List Nat → Option (Nat × Nat)) (fuel : Nat) (l : List Nat)
+    (ts : List Tri) (h : fillLoop chord fuel l = some ts) :
+    ∃ I, (dirEdges ts).Perm ((cycleEdges l).map swap ++ I) ∧ I.Perm (I.map swap) :=
+  fillLoop_boundary chord fuel l ts h
+
 /-- An octagon filled by successive chords: 6 faces, closed when glued to the reversed fan. -/
 example :
     let chord : List Nat → Option (Nat × Nat) := fun l => some (0, l.length / 2)
-    (fillLoop chord 10 [1,2,3,4,5,6,7,8]).map List.length = some 6 := by decide
+    (fillLoop chord 10 [1,2,3,4,5,6,7,8]).map List.length = some 6 ∧
+      -- the fan around the removed vertex 0 has the rim 1…8; fan minus filling is closed
+      (fillLoop chord 10 [1,2,3,4,5,6,7,8]).map (fun ts =>
+        closedManifold (ts ++ [(9,1,2),(9,2,3),(9,3,4),(9,4,5),(9,5,6),(9,6,7),(9,7,8),(9,8,1)])) = some true := by decide
 
 end M3d.C10
